@@ -1,12 +1,15 @@
 """C17 - geometric and ranking primitives equal their geometric definitions.
 M: algebraic laws of Geometry.tla on the complete 0..G grid (invariants of Gen_Geometry).
 G: every case with its exact rational expected value, replayed into the real primitives.
-T: kr.rank on vectors with ties judged by RankOk (Trace_Rank)."""
+T: kr.rank on vectors with ties judged by RankOk (Trace_Rank).
+S: the scale family - the same TLC-generated cases blown up to production size (10^2 .. 10^5 points / values, sizes
+   straddling 256 .. 10^5 with ragged remainders): every returned value against the same exact Terms; rank on long
+   vectors with ties judged by TLC from a linear certificate (Trace_RankScale)."""
 import math
 
 import numpy as np
 
-from harness import numeric, par
+from harness import monitor, numeric, par, scale
 
 SCALES = [(1.0, 0.0), (1.0, 1073741824.0), (1.0, -2.0), (2.0 ** -40, 0.0)]     # plain grid; far from the origin (translation invariance); tiny units (scale covariance, exact)
 
@@ -186,11 +189,339 @@ def _nontrivial(b):
     return len(b["v"]) > 1
 
 
+# ---------------------------------------------------------------------------------------------------------------------
+# Scale family ("S").  A TLC-generated case (a chord with the complete grid as query set and its exact squared distances;
+# a value vector with its exact rank) is blown up to n = 10^2 .. 10^5 entries by an index sequence over the pattern (tiled /
+# random / long runs), so that the expected value of EVERY returned entry is still the pattern's exact Term.  One job = one
+# (size, pattern, shape, scale, offset); jobs are deterministic functions of their (JSON) description, which is the replay case.
+SHAPES = ("tile", "random", "runs")
+TAIL = 8            # the last TAIL entries are forced onto pattern points at non-zero distance (a lost / stale tail cannot hide at 0)
+
+
+def _close_vec(got, exp):
+    """numeric.close with the tolerances of _close, element-wise (expected values are always finite)."""
+    tol = np.maximum(1e-12 * np.maximum(1.0, np.abs(exp)), 1e-9 * np.maximum(np.abs(got), np.abs(exp)))
+    with np.errstate(invalid="ignore"):
+        return np.isfinite(got) & (np.abs(got - exp) <= tol)
+
+
+class _Outcome(Exception):
+    pass
+
+
+def _lib(fn, args, n):
+    """every library call of the family: back-edge budget quadratic in n (the primitives are loop-free or linear) + CPU watchdog"""
+    out, val, _ = monitor.call(fn, args, budget=monitor.quad(n, 8), wall=120)
+    if out != "returned":
+        raise _Outcome({"outcome": out, "value": val if isinstance(val, str) else None})
+    return val
+
+
+def _vec_assert(name, got, exp, pts=None, idx=None, first_row=0):
+    """got must be a 1-D vector of len(exp) values, each within tolerance of exp; the detail is sparse."""
+    exp = np.asarray(exp, float)
+    try:
+        g = np.asarray(got, dtype=float)
+    except Exception:
+        raise AssertionError({"fn": name, "result": repr(got)[:120]})
+    assert g.shape == exp.shape, {"fn": name, "shape": list(g.shape), "expected_shape": list(exp.shape)}
+    ok = _close_vec(g, exp)
+    if not ok.all():
+        badi = np.flatnonzero(~ok)
+        i = int(badi[0])
+        d = {"fn": name, "values": int(len(exp)), "wrong": int(len(badi)), "first_wrong_index": i, "got": float(g[i]), "expected": float(exp[i]),
+             "last_wrong_index": int(badi[-1]), "wrong_only_in_last_64": bool(badi[0] >= len(exp) - 64)}
+        if pts is not None and idx is not None and first_row <= i < first_row + len(idx):
+            d["p"] = pts[int(idx[i - first_row])]
+        raise AssertionError(d)
+
+
+def _shape_index(shape, n, m, rng, nz):
+    """an index sequence of length n over the m pattern entries"""
+    if shape == "tile":
+        perm = rng.permutation(m)
+        idx = perm[(np.arange(n) + int(rng.integers(0, m))) % m]
+    elif shape == "random":
+        idx = rng.integers(0, m, n)
+    else:                         # 9 .. 200 runs of one pattern entry each, cut at random positions
+        k = int(min(n, rng.integers(8, 200)))
+        cuts = np.sort(rng.choice(np.arange(1, n), size=min(k, n - 1), replace=False)) if n > 1 else np.array([], int)
+        lens = np.diff(np.concatenate(([0], cuts, [n])))
+        idx = np.repeat(rng.integers(0, m, len(lens)), lens)
+    idx = np.asarray(idx, dtype=np.int64)
+    if shape != "random" and len(nz) and n > 4 * TAIL:
+        idx[-TAIL:] = np.asarray(nz)[(np.arange(TAIL) + int(rng.integers(0, len(nz)))) % len(nz)]
+    return idx
+
+
+def _scale_seg(job):
+    import kneeliverse.linear_fit as lf
+    import kneeliverse.knee_ranking as kr
+    b, n, s, off = job["behaviour"], int(job["n"]), float(job["scale"]), float(job["offset"])
+    rng = np.random.default_rng([int(job["sseed"]), n])
+    bad, stats = [], {"calls": 0, "values": 0}
+    keep = []                     # results stay alive: a freed result buffer must not be handed to the next call as "uninitialised" memory
+
+    def guard(clause, fn):
+        try:
+            fn()
+        except AssertionError as ex:
+            bad.append((clause, ex.args[0] if ex.args else None))
+        except _Outcome as ex:
+            bad.append((clause, ex.args[0]))
+        except Exception as ex:
+            bad.append((clause, {"raised": repr(ex)[:300]}))
+
+    def call(name, fn, args, exp, nn, **kw):
+        got = _lib(fn, args, nn)
+        keep.append(got)
+        stats["calls"] += 1
+        stats["values"] += len(exp)
+        _vec_assert(name, got, exp, **kw)
+
+    T = lambda p: np.array([p[0] * s + off, p[1] * s + off], float)
+    deg = b["a"] == b["b"]
+    m = len(b["pts"])
+    eseg_p = np.array([math.sqrt(_q(q)) * s for q in b["d2seg"]])
+    eperp_p = None if deg else np.array([math.sqrt(_q(q)) * s for q in b["perp2"]])
+    ea_p = np.array([math.sqrt(v) * s for v in b["d2a"]])
+    nz = [j for j in range(m) if (b["d2seg"][j][0] if deg else b["perp2"][j][0]) > 0]
+    idx = _shape_index(job["shape"], n, m, rng, nz)
+    pat = np.array(b["pts"], float) * s + off
+    P = np.ascontiguousarray(pat[idx])
+    a, bb = T(b["a"]), T(b["b"])
+    eseg, ea = eseg_p[idx], ea_p[idx]
+    kw = {"pts": b["pts"], "idx": idx}
+    ints = s == 1.0 and off in (0.0, -2.0)
+    wide = np.empty((2 * n, 4))
+    wide[:] = np.nan
+    wide[::2, ::2] = P
+    Pv = wide[::2, ::2]           # the same points as a strided view of a wider array (DESIGN 3.4)
+
+    guard("degenerate-chord" if deg else "shortest-distance", lambda: call("shortest_distance_points", lf.shortest_distance_points, (P, a, bb), eseg, n, **kw))
+    guard("degenerate-chord" if deg else "shortest-distance", lambda: call("shortest_distance_points[strided view]", lf.shortest_distance_points, (Pv, a, bb), eseg, n, **kw))
+    guard("euclidean-distances", lambda: call("distances", kr.distances, (a, P), ea, n, **kw))
+    if ints:
+        guard("degenerate-chord" if deg else "shortest-distance",
+              lambda: call("shortest_distance_points[int64]", lf.shortest_distance_points, (P.astype(np.int64), a.astype(np.int64), bb.astype(np.int64)), eseg, n, **kw))
+    if not deg:
+        eperp = eperp_p[idx]
+        guard("perpendicular-distance", lambda: call("perpendicular_distance_points", lf.perpendicular_distance_points, (P, a, bb), eperp, n, **kw))
+        guard("perpendicular-distance", lambda: call("perpendicular_distance_points[strided view]", lf.perpendicular_distance_points, (Pv, a, bb), eperp, n, **kw))
+        arr = np.vstack([a[None, :], P, bb[None, :]])
+        e = np.concatenate(([0.0], eperp, [0.0]))
+        guard("perpendicular-distance", lambda: call("perpendicular_distance", lf.perpendicular_distance, (arr,), e, n + 2, first_row=1, **kw))
+        if ints:
+            ai = arr.astype(np.int64)
+            guard("perpendicular-distance", lambda: call("perpendicular_distance[int64]", lf.perpendicular_distance, (ai,), e, n + 2, first_row=1, **kw))
+            guard("perpendicular-subrange", lambda: call("perpendicular_distance_index[int64]", lf.perpendicular_distance_index, (ai, 0, n + 1), e, n + 2, first_row=1, **kw))
+        for (L, k, R) in job["subs"]:
+            # points[left..right] inside a longer array: L unrelated points, a, the LAST k query points, b, R unrelated points
+            L, k, R = int(L), min(int(k), n), int(R)
+            junk = lambda c: rng.integers(-5, 9, (c, 2)).astype(float) * s + off
+            sub = np.vstack([junk(L), a[None, :], P[n - k:], bb[None, :], junk(R)])
+            es = np.concatenate(([0.0], eperp[n - k:], [0.0]))
+            guard("perpendicular-subrange",
+                  lambda: call("perpendicular_distance_index(points[%d], %d, %d)" % (len(sub), L, L + k + 1), lf.perpendicular_distance_index, (sub, L, L + k + 1), es, len(sub),
+                               pts=b["pts"], idx=idx[n - k:], first_row=1))
+    return bad, stats
+
+
+RANK_DTYPES = ("float64", "int64", "float32", "int32")
+
+
+def _scale_rank(job):
+    """distinct values: the exact permutation.  Block t of the long vector is the pattern v shifted by t * (max(v) + 1), so the
+    rank of entry j of block t is RankOf(v)[j] + t * len(v) (the Term of the pattern); then a seeded rearrangement of positions."""
+    import kneeliverse.knee_ranking as kr
+    b, n, s, off = job["behaviour"], int(job["n"]), float(job["scale"]), float(job["offset"])
+    rng = np.random.default_rng([int(job["sseed"]), n, 17])
+    bad, stats = [], {"calls": 0, "values": 0}
+    m = len(b["v"])
+    t = max(1, n // m)
+    step = max(b["v"]) + 1
+    big = (np.tile(np.array(b["v"], np.int64), t) + step * np.repeat(np.arange(t, dtype=np.int64), m))
+    exp = (np.tile(np.array(b["rank"], np.int64), t) + m * np.repeat(np.arange(t, dtype=np.int64), m))
+    if job["shape"] == "random":
+        pos = rng.permutation(len(big))
+    elif job["shape"] == "runs":          # descending blocks
+        pos = np.arange(len(big))[::-1].copy()
+    else:
+        pos = np.arange(len(big))
+    big, exp = big[pos], exp[pos]
+    dt = job["dtype"]
+    v = (big.astype(float) * s + off) if dt == "float64" else big.astype(dt)
+    nn = len(big)
+
+    def guard(clause, fn):
+        try:
+            fn()
+        except AssertionError as ex:
+            bad.append((clause, ex.args[0] if ex.args else None))
+        except _Outcome as ex:
+            bad.append((clause, ex.args[0]))
+        except Exception as ex:
+            bad.append((clause, {"raised": repr(ex)[:300]}))
+
+    def f():
+        got = np.asarray(_lib(kr.rank, (v,), nn))
+        stats["calls"] += 1
+        stats["values"] += nn
+        assert got.shape == (nn,), {"fn": "rank", "dtype": dt, "shape": list(got.shape), "expected_shape": [nn]}
+        assert got.dtype.kind in "iu", {"fn": "rank", "dtype": dt, "result_dtype": str(got.dtype)}
+        ne = np.flatnonzero(got.astype(np.int64) != exp)
+        assert len(ne) == 0, {"fn": "rank", "dtype": dt, "values": nn, "wrong": int(len(ne)), "first_wrong_index": int(ne[0]), "value": float(v[ne[0]]),
+                              "got": int(got[ne[0]]), "expected": int(exp[ne[0]]), "last_wrong_index": int(ne[-1])}
+    guard("rank-permutation", f)
+
+    def g():
+        vf = np.asarray(v, float)
+        got = _lib(kr.distance_to_similarity, (vf,), nn)
+        stats["calls"] += 1
+        stats["values"] += nn
+        _vec_assert("distance_to_similarity", got, float(vf.max()) - vf)
+    guard("distance-to-similarity", g)
+    return bad, stats
+
+
+def _scale_job(job):
+    bad, stats = _scale_seg(job) if job["what"] == "seg" else _scale_rank(job)
+    ann = {"n": job["n"], "shape": job["shape"], "scale": job["scale"], "offset": job["offset"]}
+    return [(clause, dict(detail, **ann) if isinstance(detail, dict) else detail) for clause, detail in bad], stats
+
+
+TIE_DTYPES = ("float64", "float32", "float16", "int64", "int32", "int16", "uint16", "int8", "uint8", "bool")
+TIE_HI = {"int8": 100, "uint8": 200, "bool": 1, "float16": 60}          # largest value the element type holds exactly / without wrapping
+
+
+def _tie_case(cid, n, dtype, hi, vseed):
+    """one long vector with (many) ties -> the recorded case for Trace_RankScale: values, returned ranks, ordering hint"""
+    import kneeliverse.knee_ranking as kr
+    rng = np.random.default_rng([int(vseed), int(n), 23])
+    hi = int(min(hi, TIE_HI.get(dtype, hi)))
+    arr = rng.integers(0, hi + 1, int(n)).astype(dtype)
+    out, val, _ = monitor.call(kr.rank, (arr,), budget=monitor.quad(int(n), 8), wall=120)
+    r = []
+    if out == "returned":
+        try:
+            r = [int(x) if abs(int(x)) < 2 ** 31 else -1 for x in np.asarray(val).ravel().tolist()]
+        except Exception:
+            r = []
+    return _cert({"id": cid, "v": [int(x) for x in arr.astype(float).tolist()], "r": r}), out
+
+
+def _cert(c):
+    """adds the ordering hint o (1-based stable argsort of r) that Trace_RankScale verifies"""
+    c = dict(c)
+    c["o"] = [int(x) + 1 for x in np.argsort(np.array(c["r"], dtype=np.int64), kind="stable").tolist()] if len(c["r"]) else []
+    return c
+
+
+def _run_scale(ctx, beh, small_ties, small_rejected):
+    monitor.install()
+    quick = ctx.quick
+    segs = [b for b in beh if b["kind"] == "seg"]
+    nondeg = [b for b in segs if b["a"] != b["b"]]
+    degen = [b for b in segs if b["a"] == b["b"]]
+    rks = [b for b in beh if b["kind"] == "rank" and b["distinct"] and len(b["v"]) >= 2]
+    # sizes: seed-dependent ones just above the usual thresholds (256 .. 10^5, ragged) + three fixed ragged ones beyond 2^14
+    rng = ctx.rng
+    sizes = sorted(set(scale.sizes(ctx, lo=200, hi=110000, k_quick=8, k_thorough=18)) | {20000, 50001, 100003, 257 + rng.randrange(1, 64), 4097 + rng.randrange(1, 1000)})
+    scales = list(SCALES)
+    jobs = []
+    for si, n0 in enumerate(sizes):
+        chords = rng.sample(nondeg, 3 if quick else 7) + [rng.choice(degen)]
+        for j, b in enumerate(chords):
+            n = n0 + j                        # consecutive lengths: whatever the block count, most of them leave a remainder
+            for so in ([scales[0], scales[1 + (si + j) % (len(scales) - 1)]] if quick else scales):
+                subs = []
+                if b["a"] != b["b"]:
+                    big = [c for c in (1000, 33000, 66000) if c <= max(1000, n)]
+                    subs.append((rng.randrange(1, 8), n, rng.randrange(0, 4)))                                    # the whole range, a few points in
+                    subs.append((rng.choice(big) + rng.randrange(0, 777), rng.randrange(max(1, n // 2), n + 1), rng.randrange(0, 3000)))   # a long range deep inside
+                    subs.append((rng.choice(big) + rng.randrange(0, 777), rng.randrange(1, min(n, 300) + 1), rng.randrange(0, max(1, n))))  # a short range deep inside
+                jobs.append({"kind": "S", "what": "seg", "n": n, "behaviour": b, "shape": SHAPES[(si + j + len(jobs)) % 3], "sseed": rng.randrange(1 << 30),
+                             "scale": so[0], "offset": so[1], "subs": subs})
+        for j in range(1 if quick else 4):
+            dt = RANK_DTYPES[(si + j) % len(RANK_DTYPES)]
+            so = scales[(si + j) % len(scales)] if dt == "float64" else (1.0, 0.0)
+            jobs.append({"kind": "S", "what": "rank", "n": n0 + j, "behaviour": rng.choice(rks), "shape": SHAPES[(si + j) % 3], "sseed": rng.randrange(1 << 30),
+                         "scale": so[0], "offset": so[1], "dtype": dt})
+    res = par.pmap(_scale_job, jobs, chunksize=1)
+    seen = set()
+    calls = values = 0
+    for job, (bad, stats) in zip(jobs, res):
+        calls += stats["calls"]
+        values += stats["values"]
+        ctx.count(("S", job), job["what"] == "rank" or job["behaviour"]["a"] != job["behaviour"]["b"])
+        for clause, detail in bad:
+            key = (clause, job["what"], job["n"] > 16384)
+            if key in seen:
+                ctx.extra["suppressed_duplicates"] = ctx.extra.get("suppressed_duplicates", 0) + 1
+                continue
+            seen.add(key)
+            ctx.violation(clause, job, detail)
+    ctx.traces += len(jobs)
+    if not calls or values < max(sizes):
+        from harness.main import Machinery
+        raise Machinery("scale family: nothing was compared (%d calls, %d values)" % (calls, values))
+    big = next(j for j in reversed(jobs) if j["what"] == "seg" and j["subs"])
+    ctx.sample({"binding": "S", "job": {k: v for k, v in big.items() if k != "behaviour"}, "chord": [big["behaviour"]["a"], big["behaviour"]["b"]]}, limit=5)
+    # ---- rank on long vectors with ties: judged by TLC from a linear certificate
+    tsz = ([n for n in sizes if n <= 6000] or [4097 + rng.randrange(0, 900)])[-1:] + [33000 + rng.randrange(0, 5000), 100003 + rng.randrange(0, 5)] if quick else \
+        [sizes[0], sizes[len(sizes) // 4], 20000 + rng.randrange(0, 9), 33000 + rng.randrange(0, 5000), 66000 + rng.randrange(0, 3000), 50001, 100003 + rng.randrange(0, 5), sizes[-1]]
+    ties, outcome = [], {}
+    for k, n in enumerate(tsz):
+        dt = "int16" if 32768 < n < 40000 else ("uint16" if 65536 < n < 70000 else TIE_DTYPES[rng.randrange(len(TIE_DTYPES))])
+        hi = rng.choice([1, 7, 1000, 30000])
+        par_ = {"kind": "TS", "n": n, "dtype": dt, "hi": min(hi, TIE_HI.get(dt, hi)), "vseed": rng.randrange(1 << 30)}
+        c, out = _tie_case("ts%d" % k, par_["n"], par_["dtype"], par_["hi"], par_["vseed"])
+        ties.append((par_, c))
+        outcome[c["id"]] = out
+    # self-tests on a mid-size case: a rank used twice at the very end; two ranks exchanged across a value step
+    base = min((c for _, c in ties if len(c["r"]) == len(c["v"])), key=lambda c: len(c["v"]), default=None)
+    st = []
+    if base is not None:
+        r1 = list(base["r"])
+        r1[-1] = r1[0]
+        st.append((_cert(dict(base, r=r1)), "rank-permutation"))
+        order = np.argsort(np.array(base["v"]), kind="stable")
+        lo_i, hi_i = int(order[0]), int(order[-1])
+        if base["v"][lo_i] < base["v"][hi_i]:
+            r2 = list(base["r"])
+            r2[lo_i], r2[hi_i] = r2[hi_i], r2[lo_i]
+            st.append((_cert(dict(base, r=r2)), "rank-permutation"))
+    # the small tie cases go through the certificate judge as well: both judges must agree on every one of them
+    small = [_cert(dict({k: c[k] for k in ("v", "r")}, id="x" + c["id"])) for c in small_ties]
+    if quick:                     # one TLC run (about 3 MB of JSON)
+        rej = ctx.trace("Trace_RankScale", [c for _, c in ties] + small, selftest=st, chunk=len(ties) + len(small) + len(st), timeout=1800)
+    else:                         # a few MB of JSON per TLC run
+        rej = ctx.trace("Trace_RankScale", [c for _, c in ties], selftest=st, chunk=4, timeout=1800)
+        rej.update(ctx.trace("Trace_RankScale", small))
+    agree = {("x" + cid) for cid in small_rejected}
+    got = {cid for cid in rej if cid.startswith("x")}
+    if agree != got:
+        from harness.main import Machinery
+        raise Machinery("Trace_Rank and Trace_RankScale disagree on small vectors: %s vs %s" % (sorted(small_rejected)[:5], sorted(got)[:5]))
+    for par_, c in ties:
+        ctx.count(("TS", par_), True)
+        if c["id"] in rej:
+            ctx.violation("rank-permutation", par_, {"n": par_["n"], "dtype": par_["dtype"], "outcome": outcome[c["id"]], "verdict": [str(x)[:200] for x in rej[c["id"]][0]]})
+    ctx.extra["scale"] = {"sizes": sizes, "jobs": len(jobs), "library_calls": calls, "returned_values_compared": values,
+                          "shapes": list(SHAPES), "rank_tie_vectors": [[p["n"], p["dtype"], p["hi"]] for p, _ in ties],
+                          "small_tie_vectors_cross_judged": len(small)}
+
+
 def run(ctx):
     global SCALES
     ctx.rule = ("TLC enumerates the complete integer grid: every chord (a,b) with every grid point as query, "
                 "rectangle pairs, point triples, value vectors; expected values are exact rationals from Geometry.tla. "
-                "non-trivial: non-degenerate chord / positive overlap / non-collinear distinct triple / vector of length > 1")
+                "non-trivial: non-degenerate chord / positive overlap / non-collinear distinct triple / vector of length > 1. "
+                "Scale family: the same TLC cases blown up to 200 .. 110000 points / values (sizes just above 256 .. 10^5 and 20000 / 50001 / 100003, "
+                "consecutive lengths; tiled / random / long-run index sequences over the pattern; whole ranges, long and short sub-ranges deep inside longer "
+                "arrays; strided and int64 inputs; the check's scales / offsets): every returned value of shortest / perpendicular / sub-range / Euclidean "
+                "distance, rank (distinct) and distance-to-similarity equals the pattern's exact Term; rank with ties on vectors up to 10^5 (element types "
+                "narrower than the ranks included) is judged by TLC from a linear certificate (Trace_RankScale, proved equivalent to RankOk on short vectors)")
     ctx.assumptions += numeric.ASSUMPTIONS + [
         "square roots are applied last in binary64 to exact rational squares",
         "triangle_area is compared in absolute value (the library returns the signed area)",
@@ -247,6 +578,10 @@ def run(ctx):
                       {"verdict": [str(x)[:200] for x in vs[0]], "dtype": byid[cid].get("dtype", "float64")})
     for c in cases:
         ctx.count(("T", c["v"]), True)
+    # ---- S: production-size inputs
+    _run_scale(ctx, beh, cases, set(rej))
+    ctx.assumptions.append("scale family: expected values are the TLC Terms of the small pattern, indexed by the position's pattern entry (no new oracle); "
+                           "tolerances are those of the small cases (every returned value is point-wise, no long sums)")
     # ---- growth beyond C17: the knee-ranking heuristics built on these primitives (notes only)
     from harness import growth
     growth.safe(ctx, growth.ranking)
@@ -257,6 +592,15 @@ def replay(ctx, obj):
     if case["kind"] == "G":
         for clause, detail in _replay_line(case["behaviour"]):
             ctx.violation(clause, case, detail)
+    elif case["kind"] == "S":
+        bad, _ = _scale_job(case)
+        for clause, detail in bad:
+            ctx.violation(clause, case, detail)
+    elif case["kind"] == "TS":
+        c, out = _tie_case("ts0", case["n"], case["dtype"], case["hi"], case["vseed"])
+        rej = ctx.trace("Trace_RankScale", [c])
+        for cid, vs in rej.items():
+            ctx.violation("rank-permutation", case, {"n": case["n"], "dtype": case["dtype"], "outcome": out, "verdict": [str(x)[:200] for x in vs[0]]})
     else:
         import kneeliverse.knee_ranking as kr
         r = [int(x) for x in kr.rank(np.array(case["v"]).astype(case.get("dtype", "float64"))).tolist()]
